@@ -118,10 +118,16 @@ structure Cfg where
       exchanged, only the ACK of ours missing — enters `Closed` silently (RFC 793): no error flag,
       the receive buffer stays readable. -/
   fixQuietClose : Bool := false
+  /-- F-C06-7 repair: SYN and SYN-ACK advertise the real receive window
+      (`advertised_window(recv_buf_cap, 0)`) instead of the constant 65535. -/
+  fixSynWindow : Bool := false
   deriving DecidableEq, Repr, Inhabited
 
 /-- `advertised_window` (tcp.rs:1335). -/
 def advWindow (recvCap len : Nat) : Nat := min (recvCap - len) 65535
+
+/-- Window carried by SYN / SYN-ACK: `DEFAULT_WINDOW` in the code as found. -/
+def synWindow (cfg : Cfg) : Nat := if cfg.fixSynWindow then advWindow cfg.recvCap 0 else defaultWindow
 
 /-- `mss_for` (tcp.rs:1313). -/
 def mssFor (cfg : Cfg) (src : Ip) : Nat :=
